@@ -150,7 +150,8 @@ def _prior(rec, name="x"):
     if k == "gmrf":
         return GMRF(pm * np.ones(n), rec.get("prior_prec", 2.0), bc_type=rec.get("bc", "zero"), name=name)
     if k == "lmrf":
-        return LMRF(0, rec.get("prior_scale", 0.5), geometry=n, bc_type=rec.get("bc", "zero"), name=name)
+        loc = np.linspace(-0.2, 0.3, n) if rec.get("lmrf_vector_location") else 0
+        return LMRF(loc, rec.get("prior_scale", 0.5), geometry=n, bc_type=rec.get("bc", "zero"), name=name)
     if k == "reg":
         return RegularizedGaussian(pm * np.ones(n), rec.get("prior_cov", 1.0),
                                    constraint=rec.get("constraint", "nonnegativity"), name=name)
@@ -266,6 +267,11 @@ def gen_exp_scenario(r, kind=None, dim_max=5):
         k["ip_cuqiarray"] = True          # the start vector is handed over as a geometry-carrying CUQIarray
     if kind == "MH":
         k["scale"] = round(r.choice([0.05, 0.3, 0.8, 1.0, 2.5]), 3)
+        if r.random() < 0.2:
+            k["proposal"] = "gauss_aniso"
+    elif kind == "CWMH" and r.random() < 0.25:
+        k["scale"] = round(r.choice([0.1, 0.5, 1.0]), 3)
+        k["proposal"] = r.choice(["callable", "normal_cond"])
     elif kind == "CWMH":
         if r.random() < 0.5:
             k["scale"] = round(r.choice([0.1, 0.5, 1.0, 2.0]), 3)
@@ -274,6 +280,8 @@ def gen_exp_scenario(r, kind=None, dim_max=5):
     elif kind in ("ULA", "MALA"):
         k["scale"] = round(r.choice([0.01, 0.05, 0.2, 0.6]), 3)
     elif kind == "NUTS":
+        if r.random() < 0.15:
+            t["kind"] = "boxed"            # bounded support: non-finite leaves arise without fault injection
         k["max_depth"] = r.randint(0, 4)
         k["step_size"] = r.choice([None, None, 0.05, 0.3, 0.9, 2.5])
         if r.random() < 0.3:
@@ -306,6 +314,8 @@ def gen_exp_scenario(r, kind=None, dim_max=5):
         if r.random() < 0.5:
             k["initial_point"] = [abs(v) for v in ip]
     elif kind == "UGLA":
+        if r.random() < 0.3:
+            t["lmrf_vector_location"] = True
         t.update(prior="lmrf", m=dim + r.randint(0, 3), bc=r.choice(["zero", "periodic", "neumann"]),
                  model=r.choice(["matrix", "func"]))
         if dim < 2:
@@ -361,6 +371,15 @@ def build_exp_sampler(ctx, sc, callback=None, target=None):
     k.pop("ip_cuqiarray", None)
     if isinstance(k.get("scale"), list):
         k["scale"] = np.array(k["scale"], float)
+    prop = k.pop("proposal", None)
+    if prop == "gauss_aniso" and sc["kind"] == "MH":
+        n_ = target.dim
+        k["proposal"] = cuqi.distribution.Gaussian(np.zeros(n_), np.linspace(0.5, 2.0, n_))      # symmetric, anisotropic
+        info["proposal_Cinv"] = np.diag(1 / np.linspace(0.5, 2.0, n_))
+    elif prop == "callable" and sc["kind"] == "CWMH":
+        k["proposal"] = lambda location, scale: np.random.normal(location, scale)                 # user-supplied callable
+    elif prop == "normal_cond" and sc["kind"] == "CWMH":
+        k["proposal"] = cuqi.distribution.Normal(mean=lambda location: location, std=lambda scale: scale, geometry=target.dim)
     cls = getattr(M, sc["kind"])
     s = cls(target, callback=callback, **k)
     info["target"] = target
@@ -415,6 +434,11 @@ def gibbs_joint(rec, ctx=None):
         x = LMRF(0, scale=lambda d: 1 / d, geometry=n, name="x")
         y = Gaussian(mk_model()(x), 0.3, name="y")
         J = JointDistribution(*_perm(rec, [y, x, d]))(y=yobs)
+    elif shape == "x_d_reg":    # implicit nonnegativity-regularised Gaussian prior with precision d (Regularized-Gaussian/Gamma pair)
+        d = Gamma(1.0, 1e-1, name="d")
+        x = RegularizedGaussian(np.zeros(n), prec=lambda d: d, constraint="nonnegativity", name="x")
+        y = Gaussian(mk_model()(x), 0.3, name="y")
+        J = JointDistribution(*_perm(rec, [y, x, d]))(y=yobs)
     elif shape == "x_s_w":      # as x_s plus an independent block w (its conditional is a plain distribution: Direct)
         s = Gamma(1.0, 1e-1, name="s")
         x = Gaussian(np.zeros(n), 1.0, name="x")
@@ -449,6 +473,7 @@ GIBBS_SHAPES = {
     "x_z_s": {"x": ["MH", "CWMH"], "z": ["MH", "CWMH"], "s": ["Conjugate", "MH"]},
     "x_d_a": {"x": ["LinearRTO", "MH"], "d": ["Conjugate", "Conjugate", "MH"], "a": ["MH"]},
     "x_s_w": {"x": ["LinearRTO", "MH"], "s": ["Conjugate", "MH"], "w": ["Direct", "Direct", "MH"]},
+    "x_d_reg": {"x": ["RegularizedLinearRTO"], "d": ["Conjugate"]},
 }
 LEGACY_GIBBS_SHAPES = {
     "x_s": {"x": ["LinearRTO", "CWMH", "MH"], "s": ["Conjugate", "MH"]},
@@ -481,10 +506,15 @@ def gen_gibbs_scenario(r, legacy=False):
             kn["scale"] = r.choice([0.1, 0.4])
         elif kind in ("LinearRTO", "UGLA"):
             kn["maxit"] = r.choice([5, 30])
+        elif kind == "RegularizedLinearRTO":
+            kn["maxit"] = r.choice([5, 30])
+            kn["stepsize"] = r.choice([0.005, 0.02])
         if kind in ("MH", "CWMH", "MALA", "ULA", "NUTS", "PCN") and b in ("s", "d", "a"):
             kn["initial_point"] = [round(r.uniform(0.5, 2.0), 3)]
         strat[b] = {"kind": kind, "knobs": kn}
     steps = {b: r.choice([1, 1, 2, 3]) for b in strat} if not legacy else None
+    if steps and r.random() < 0.2:
+        steps.pop(sorted(steps)[0])            # a step count may be omitted for a block (defaults to 1)
     if rec["xprior"] == "gmrf" and shape == "x_s" and strat["x"]["kind"] == "PCN":
         rec["xprior"] = "gauss"
     if shape == "x_d_s" and strat["x"]["kind"] == "NUTS":
@@ -538,6 +568,8 @@ def gen_legacy_scenario(r, kind=None):
         k["x0"] = k.pop("initial_point")
     if kind == "pCN" and r.random() < 0.3:
         sc["target"]["tuple_target"] = True       # legacy pCN accepts (likelihood, prior)
+    if kind in ("MH", "CWMH") and r.random() < 0.15:
+        sc["target"]["lambda_target"] = True
     if kind == "NUTS":
         ss = k.pop("step_size", None)
         k.pop("opt_acc_rate", None)
@@ -563,6 +595,20 @@ def build_legacy_sampler(ctx, sc, callback=None):
     if kind == "pCN" and sc["target"].get("tuple_target"):
         target = (target.likelihood, target.prior)
     k = dict(sc["knobs"])
+    prop = k.pop("proposal", None)
+    if kind == "MH" and prop == "gauss_aniso":
+        n_ = sc["target"]["dim"]
+        k["proposal"] = cuqi.distribution.Gaussian(np.zeros(n_), np.linspace(0.5, 2.0, n_))
+        info["proposal_Cinv"] = np.diag(1 / np.linspace(0.5, 2.0, n_))
+    elif kind == "CWMH" and prop == "callable":
+        k["proposal"] = lambda x_t, sigma: np.random.normal(x_t, sigma)
+    elif kind == "CWMH" and prop == "normal_cond":
+        k["proposal"] = cuqi.distribution.Normal(mean=None, std=None, geometry=sc["target"]["dim"])
+    if sc["target"].get("lambda_target") and kind in ("MH", "CWMH") and sc["target"].get("kind") not in ("post",):
+        # the stateless interface also accepts a bare log-density function plus dim
+        probe = info["logd"]
+        target = (lambda x: probe(x))
+        k["dim"] = sc["target"]["dim"]
     if k.get("x0") is not None:
         k["x0"] = np.array(k["x0"]) if all(isinstance(v, int) for v in k["x0"]) else np.array(k["x0"], float)
     else:
